@@ -73,8 +73,8 @@ func (g *qgate) yield(p string) {
 var (
 	qProdPoints = []string{"Q_enq_lock", "Q_enq_locked", "Q_enq_take", "Q_enq_put", "P_ret"}
 	qConsPoints = map[string][]string{
-		"deq": {"Q_gd_take", "Q_gd_back", "Q_deq_lock", "Q_deq_locked", "Q_deq_take", "Q_deq_put", "C_ret"},
-		"all": {"Q_gd_take", "Q_gd_back", "Q_all_lock", "Q_all_locked", "Q_all_take", "Q_all_put", "C_ret"},
+		"deq": {"Q_gd_take", "Q_gd_back", "Q_deq_lock", "Q_deq_locked", "Q_deq_take", "Q_deq_put", "Q_deq_ret", "C_ret"},
+		"all": {"Q_gd_take", "Q_gd_back", "Q_all_lock", "Q_all_locked", "Q_all_take", "Q_all_put", "Q_all_ret", "C_ret"},
 		"req": {"Q_req_lock", "Q_req_locked", "Q_req_take", "Q_req_put", "C_ret"},
 	}
 )
